@@ -1,24 +1,219 @@
-(* Proofs/GCPointerProofs.v *)
-From Coq Require Import List Arith Bool.
-Require Import DS.Model.GCPointer.
+(* Proofs/GCPointerProofs.v -- the pointer plane (Model/GCPointer.v) tied to the collector (Model/GCDoc.v, Model/GC.v). *)
+From Coq Require Import ZArith List Arith Bool String.
+Require Import DS.Model.PyStr DS.Gen.GenNorm DS.Model.GC DS.Model.Doc DS.Gen.GenDoc DS.Model.GCDoc DS.Model.GCPointer.
+Require Import DS.Proofs.GCProofs DS.Proofs.GCDocProofs.
 Import ListNotations.
+Open Scope Z_scope.
 
-(* With the pointer published at p: whatever the first resolution was told (and whatever unpublished versions lie around),
-   a collection whose SECOND read of the pointer is answered -- truthfully or by raising -- never works from another version. *)
-Theorem pointer_consistent : forall vs p a1 x1 a2 x2 u,
-  honest p a1 -> honest p a2 -> a2 <> PNone ->
-  collect_resolve vs a1 x1 a2 x2 = RUse u -> u = p.
+Section Resolve.
+  Variable D : Type.
+  Variable same : D -> D -> bool.
+
+  Lemma load_body : forall a (fs : list (mfile D)) n f d, load D a fs n = Some (f, d) -> find_file n fs = Some f /\ mf_body f = Some d.
+  Proof.
+    intros a fs n f d H. unfold load in H. destruct (find_file n fs) as [g|]; [|discriminate].
+    destruct (a_read_raises a n); [discriminate|]. destruct (mf_body g) as [e|] eqn:B; [|discriminate].
+    inversion H; subst. auto.
+  Qed.
+
+  (* With the pointer published at the file p: whatever the first resolution was told (and whatever unpublished versions lie
+     around), a collection whose SECOND read of the pointer is answered -- truthfully or by raising -- works from metadata
+     that is `same` as p's. *)
+  Theorem resolve_consistent : forall (fs : list (mfile D)) p dp a1 a2 f d,
+    find_file (mf_name p) fs = Some p -> mf_body p = Some dp ->
+    honest p a2 -> a_hint a2 <> PNone ->
+    collect_resolve same a1 a2 fs = RUse f d -> same dp d = true.
+  Proof.
+    intros fs p dp a1 a2 f d F B H2 N H. unfold collect_resolve in H.
+    destruct (refresh_resolve a1 fs) as [| |g e] eqn:R; try discriminate.
+    destruct (guard same a2 fs e) eqn:G; [|discriminate]. inversion H; subst g e. clear H.
+    unfold guard in G. destruct H2 as [E|[E|E]]; rewrite E in G; [|contradiction|discriminate].
+    destruct (a_exists a2 (mf_name p)); try discriminate.
+    destruct (load D a2 fs (mf_name p)) as [[q d']|] eqn:L; [|discriminate].
+    destruct (load_body _ _ _ _ _ L) as [F' B']. rewrite F in F'. inversion F'; subst q. rewrite B in B'. inversion B'; subst d'. exact G.
+  Qed.
+
+  (* a pointer read that RAISES aborts, at either resolution *)
+  Theorem resolve_raise_aborts : forall (fs : list (mfile D)) a1 a2,
+    a_hint a1 = PRaise \/ a_hint a2 = PRaise -> forall f d, collect_resolve same a1 a2 fs <> RUse f d.
+  Proof.
+    intros fs a1 a2 H f d. unfold collect_resolve. destruct H as [H|H].
+    - unfold refresh_resolve, current_info. rewrite H. discriminate.
+    - destruct (refresh_resolve a1 fs) as [| |g e]; try discriminate. unfold guard. rewrite H. discriminate.
+  Qed.
+
+  (* the file a collection works from was read, by refresh(), without a failure and parsed: a file that cannot be read as
+     table metadata (not JSON, refused by the reader) or whose read failed is never worked from *)
+  Theorem resolve_uses_readable : forall (fs : list (mfile D)) a1 a2 f d,
+    collect_resolve same a1 a2 fs = RUse f d ->
+    find_file (mf_name f) fs = Some f /\ mf_body f = Some d /\ a_read_raises a1 (mf_name f) = false.
+  Proof.
+    intros fs a1 a2 f d H. unfold collect_resolve in H.
+    destruct (refresh_resolve a1 fs) as [| |g e] eqn:R; try discriminate.
+    destruct (guard same a2 fs e); [|discriminate]. inversion H; subst g e. clear H.
+    unfold refresh_resolve in R. destruct (current_info D a1 fs) as [| |n]; try discriminate.
+    destruct (load D a1 fs n) as [[q d']|] eqn:L; [|discriminate]. inversion R; subst q d'.
+    unfold load in L. destruct (find_file n fs) as [g|] eqn:F; [|discriminate].
+    destruct (a_read_raises a1 n) eqn:RR; [discriminate|]. destruct (mf_body g) as [e|] eqn:B; [|discriminate].
+    inversion L; subst g e.
+    assert (N: n = mf_name f).
+    { clear - F. induction fs as [|x r IH]; simpl in F; [discriminate|].
+      destruct (String.eqb n (mf_name x)) eqn:E; [apply String.eqb_eq in E; congruence|auto]. }
+    subst n. auto.
+  Qed.
+
+  (* when the published file is the scan's choice (no unpublished higher version, no younger sibling of the same version),
+     a lost pointer is harmless: the scan finds p *)
+  Theorem resolve_lost_hint_scan : forall (fs : list (mfile D)) p a1 a2 f d,
+    a_hint a1 = PNone -> a_hint a2 = PNone -> scan_pick a1 fs = Some p ->
+    collect_resolve same a1 a2 fs = RUse f d -> mf_name f = mf_name p.
+  Proof.
+    intros fs p a1 a2 f d H1 H2 S H. destruct (resolve_uses_readable _ _ _ _ _ H) as [F _].
+    unfold collect_resolve in H. destruct (refresh_resolve a1 fs) as [| |g e] eqn:R; try discriminate.
+    destruct (guard same a2 fs e); [|discriminate]. inversion H; subst g e. clear H.
+    unfold refresh_resolve, current_info in R. rewrite H1 in R. unfold scan in R. destruct (a_list_raises a1); [discriminate|].
+    rewrite S in R. destruct (load D a1 fs (mf_name p)) as [[q d']|] eqn:L; [|discriminate]. inversion R; subst q d'.
+    unfold load in L. destruct (find_file (mf_name p) fs) as [g|] eqn:F2; [|discriminate].
+    destruct (a_read_raises a1 (mf_name p)); [discriminate|]. destruct (mf_body g); [|discriminate]. inversion L; subst g.
+    clear - F2. induction fs as [|x r IH]; simpl in F2; [discriminate|].
+    destruct (String.eqb (mf_name p) (mf_name x)) eqn:E; [apply String.eqb_eq in E; congruence|auto].
+  Qed.
+End Resolve.
+
+(* ---------------------------------------------------------------- layer 2 *)
+Lemma find_file_parse : forall ext n (fs : list (mfile jv)),
+  find_file n (map (parse_file ext) fs) = option_map (parse_file ext) (find_file n fs).
 Proof.
-  intros vs p a1 x1 a2 x2 u H1 H2 N H. unfold collect_resolve in H.
-  destruct (refresh_resolve vs a1 x1) as [| |w] eqn:R; try discriminate.
-  destruct (guard w a2 x2) eqn:G; [|discriminate]. inversion H; subst u. clear H.
-  destruct H2 as [->|[->| ->]]; [|contradiction|discriminate].
-  simpl in G. destruct (x2 p); try discriminate. apply Nat.eqb_eq in G. auto.
+  intros ext n fs. induction fs as [|f r IH]; [reflexivity|]. simpl. destruct (String.eqb n (mf_name f)); [reflexivity|exact IH].
 Qed.
 
-(* a pointer read that RAISES aborts, at either resolution *)
-Theorem pointer_raise_aborts : forall vs a1 x1 a2 x2,
-  a1 = PRaise \/ (a2 = PRaise /\ exists u, refresh_resolve vs a1 x1 = RUse u) -> collect_resolve vs a1 x1 a2 x2 = RAbort.
+Lemma parse_file_body : forall ext f d, mf_body (parse_file ext f) = Some d -> mf_body f = Some d /\ accepts ext gen_metadata_shape d = true.
 Proof.
-  intros vs a1 x1 a2 x2 [->|[-> [u R]]]; unfold collect_resolve; [reflexivity|]. rewrite R. reflexivity.
+  intros ext f d H. unfold parse_file in H. cbn [mf_body] in H. destruct (mf_body f) as [e|]; [|discriminate].
+  destruct (accepts ext gen_metadata_shape e) eqn:A; [|discriminate]. inversion H; subst. auto.
+Qed.
+
+(* The pointer plane feeds the collector.  Pointer published at the file p holding the document dp (which the reader accepts);
+   `same` (the code's comparison of the two TableMetadata objects as dictionaries) distinguishes documents with different
+   snapshot manifest lists.  Then for EVERY pair of answer sets in which the pointer reads are honest and the second one is not
+   "no pointer", and every fault oracle of the collection proper: the collection aborts / finds no table / refuses the
+   document having deleted nothing, or it ran on exactly the manifest lists of the PUBLISHED metadata and is safe for them
+   (C07_fail_closed's specification) -- whatever unpublished versions lie on storage. *)
+Theorem pointer_run_safe : forall ext same tp grace now timeout o a1 a2 (files : list (mfile jv)) st p dp,
+  (forall a b, same a b = true -> doc_lists a = doc_lists b) ->
+  find_file (mf_name p) files = Some p -> mf_body p = Some dp -> accepts ext gen_metadata_shape dp = true ->
+  honest p a1 -> honest p a2 -> a_hint a2 <> PNone ->
+  wf_store (doc_lists dp) st ->
+  match collect_pointer ext same tp grace now timeout o a1 a2 files st with
+  | PUse f (DocRun r) => gc_safe_spec now grace timeout (doc_lists dp) st r
+  | other => pointer_deleted other = []
+  end.
+Proof.
+  intros ext same tp grace now timeout o a1 a2 files st p dp SL F B A H1 H2 N W. unfold collect_pointer.
+  destruct (collect_resolve same a1 a2 (map (parse_file ext) files)) as [| |f d] eqn:R; try reflexivity.
+  assert (F': find_file (mf_name (parse_file ext p)) (map (parse_file ext) files) = Some (parse_file ext p)).
+  { rewrite find_file_parse. change (mf_name (parse_file ext p)) with (mf_name p). rewrite F. reflexivity. }
+  assert (B': mf_body (parse_file ext p) = Some dp).
+  { unfold parse_file. cbn [mf_body]. rewrite B, A. reflexivity. }
+  assert (S: same dp d = true).
+  { eapply (resolve_consistent jv same _ (parse_file ext p) dp a1 a2 f d F' B'); eauto. }
+  pose proof (doc_fail_closed ext tp grace now timeout o d st) as DF. rewrite <- (SL _ _ S) in DF. specialize (DF W).
+  destruct (collect_doc ext tp grace now timeout o d st) as [|r]; [reflexivity|]. exact (proj2 DF).
+Qed.
+
+(* the statement WITHOUT the hypothesis on the second pointer read: false -- the residual window.  A pointer that looks absent
+   at BOTH reads (a lost pointer, for the library: recovered by scanning, C10) while a dead writer's unpublished higher version
+   lies on storage makes the collection work from that version: files the published metadata references are deleted. *)
+Definition pointer_run_safe_full : Prop :=
+  forall ext same tp grace now timeout o a1 a2 (files : list (mfile jv)) st p dp,
+  (forall a b, same a b = true -> doc_lists a = doc_lists b) ->
+  find_file (mf_name p) files = Some p -> mf_body p = Some dp -> accepts ext gen_metadata_shape dp = true ->
+  honest p a1 -> honest p a2 ->
+  wf_store (doc_lists dp) st ->
+  match collect_pointer ext same tp grace now timeout o a1 a2 files st with
+  | PUse f (DocRun r) => gc_safe_spec now grace timeout (doc_lists dp) st r
+  | other => pointer_deleted other = []
+  end.
+
+(* ---- the witness: version 3 is published (one snapshot: list l1 -> manifest m1 -> data file a); a writer that died after
+   writing version 4 -- the same table with its only snapshot deleted -- and before flipping the pointer left v4 behind.
+   Both reads of the pointer find nothing (the pointer file is lost, or looks lost): the scan makes v4 the table and the
+   collection deletes every file of the published snapshot. *)
+Open Scope string_scope.
+Definition wx_ext (_ : string) (_ : jv) : bool := true.
+Definition wx_same (_ _ : jv) : bool := false.      (* never consulted in the witness: there is no pointer to compare with *)
+Definition wx_doc (cur : jv) (snaps : list jv) : jv :=
+  JObj [("location", JStr "data"); ("table_uuid", JStr "u"); ("format_version", JNum 2); ("last_sequence_number", JNum 2);
+        ("last_updated_ms", JNum 9); ("last_column_id", JNum 1);
+        ("schemas", JArr [JObj [("schema_id", JNum 1); ("fields", JArr [])]]); ("current_schema_id", JNum 1);
+        ("partition_specs", JArr [JObj [("spec_id", JNum 0); ("fields", JArr [])]]); ("default_spec_id", JNum 0);
+        ("sort_orders", JArr [JObj [("order_id", JNum 1); ("fields", JArr [])]]); ("default_sort_order_id", JNum 1);
+        ("properties", JObj []); ("current_snapshot_id", cur); ("snapshot_log", JArr []); ("metadata_log", JArr []);
+        ("snapshots", JArr snaps)].
+Definition wx_published : jv :=
+  wx_doc (JNum 1) [JObj [("snapshot_id", JNum 1); ("timestamp_ms", JNum 5); ("manifest_list", JStr "metadata/manifests/l1.avro")]].
+Definition wx_leftover : jv := wx_doc JNull [].
+Definition wx_p : mfile jv := mkMF "v3.metadata.json" 3%nat 100 (Some wx_published).
+Definition wx_files : list (mfile jv) := [wx_p; mkMF "v4-0a1b2c3d.metadata.json" 4%nat 200 (Some wx_leftover)].
+Definition wx_store : store := [
+  ("data/a.parquet", mkObj 1000 CData);
+  ("metadata/manifests/m1.avro", mkObj 1000 (CManifest FAvro ["/data/a.parquet"]));
+  ("metadata/manifests/l1.avro", mkObj 1000 (CList FAvro ["metadata/manifests/m1.avro"]))].
+Definition wx_lost : answers := mkA PNone (fun _ => XTrue) false (fun _ => false) (fun _ => false).
+Definition wx_run : presult := collect_pointer wx_ext wx_same "data" 1000 1000000 86400000 no_faults wx_lost wx_lost wx_files wx_store.
+
+Lemma wx_run_deletes : exists f r, wx_run = PUse f (DocRun r) /\ mf_name f = "v4-0a1b2c3d.metadata.json" /\ r_out r = Done
+  /\ r_deleted r = ["metadata/manifests/l1.avro"; "metadata/manifests/m1.avro"; "data/a.parquet"].
+Proof. eexists. eexists. split; [vm_compute; reflexivity|]. split; [reflexivity|]. split; vm_compute; reflexivity. Qed.
+
+Lemma wx_referenced : doc_lists wx_published = ["metadata/manifests/l1.avro"]
+  /\ referenced (doc_lists wx_published) wx_store "data/a.parquet".
+Proof.
+  split; [vm_compute; reflexivity|]. right. right.
+  exists "metadata/manifests/l1.avro", ["metadata/manifests/m1.avro"], "metadata/manifests/m1.avro", ["/data/a.parquet"], "/data/a.parquet".
+  repeat split; simpl; auto; eexists; split; reflexivity.
+Qed.
+
+Theorem pointer_run_safe_full_refuted : ~ pointer_run_safe_full.
+Proof.
+  intro H.
+  specialize (H wx_ext wx_same "data" 1000 1000000 86400000 no_faults wx_lost wx_lost wx_files wx_store wx_p wx_published).
+  fold wx_run in H. destruct wx_run_deletes as [f [r [E [_ [_ Dl]]]]]. rewrite E in H.
+  assert (S: gc_safe_spec 1000000 1000 86400000 (doc_lists wx_published) wx_store r).
+  { apply H.
+    - intros a b C. discriminate.
+    - reflexivity.
+    - reflexivity.
+    - vm_compute. reflexivity.
+    - right. left. reflexivity.
+    - right. left. reflexivity.
+    - apply wf_storeb_sound. vm_compute. reflexivity. }
+  destruct (gs_deleted _ _ _ _ _ _ S "data/a.parquet") as [NR _]; [rewrite Dl; simpl; auto|].
+  exact (NR (proj2 wx_referenced)).
+Qed.
+
+(* ---- layer 2 corollaries *)
+Theorem pointer_raise_aborts : forall ext same tp grace now timeout o a1 a2 (files : list (mfile jv)) st,
+  a_hint a1 = PRaise \/ a_hint a2 = PRaise ->
+  forall f res, collect_pointer ext same tp grace now timeout o a1 a2 files st <> PUse f res.
+Proof.
+  intros ext same tp grace now timeout o a1 a2 files st H f res. unfold collect_pointer.
+  destruct (collect_resolve same a1 a2 (map (parse_file ext) files)) as [| |g d] eqn:R; try discriminate.
+  exfalso. exact (resolve_raise_aborts jv same _ a1 a2 H g d R).
+Qed.
+
+(* the file a collection works from is on storage, was read by refresh() without a failure, is JSON and is accepted by the
+   reader (regenerated shape): a metadata file that is missing, unparseable or failing transiently is never worked from *)
+Theorem pointer_uses_readable : forall ext same tp grace now timeout o a1 a2 (files : list (mfile jv)) st f res,
+  collect_pointer ext same tp grace now timeout o a1 a2 files st = PUse f res ->
+  exists f0 d, find_file (mf_name f) files = Some f0 /\ mf_body f0 = Some d /\ accepts ext gen_metadata_shape d = true
+               /\ a_read_raises a1 (mf_name f) = false /\ res = collect_doc ext tp grace now timeout o d st.
+Proof.
+  intros ext same tp grace now timeout o a1 a2 files st f res H. unfold collect_pointer in H.
+  destruct (collect_resolve same a1 a2 (map (parse_file ext) files)) as [| |g d] eqn:R; try discriminate.
+  inversion H; subst g res. clear H.
+  destruct (resolve_uses_readable jv same _ a1 a2 f d R) as [F [B RR]].
+  rewrite find_file_parse in F. destruct (find_file (mf_name f) files) as [f0|] eqn:F0; [|discriminate].
+  simpl in F. inversion F as [E]. rewrite <- E in B. destruct (parse_file_body ext f0 d B) as [B0 A].
+  exists f0, d. rewrite <- E in RR. repeat split; auto.
 Qed.
